@@ -365,6 +365,7 @@ class R:
         self.n_decoy_com = 0
         self.n_cont = 0
         self.lines = []
+        self.cont_block_heads = []   # 0-based indices of the first physical line of continued IF-THEN / ELSE IF / DO WHILE headers
 
     def op(self, name, sp):
         if self.fixed or sp['s'] == 0:
@@ -452,10 +453,12 @@ def r_cond(c, rc, allow_break=True):
     raise AssertionError(c)
 
 
-def _emit(rc, ind, text, tc=None):
+def _emit(rc, ind, text, tc=None, block_head=False):
     """append a (possibly continued) statement; expands the continuation markers"""
     pad = ' ' * ind
     parts = text.split('\x00')
+    if block_head and len(parts) > 1:
+        rc.cont_block_heads.append(len(rc.lines))
     out = [pad + parts[0]]
     for p in parts[1:]:
         com, rest = p.split('\x01', 1)
@@ -521,7 +524,7 @@ def r_stmts(body, r, rc, ind):
                 else:
                     ei = 'elseif' if s['elseif_joined'] else 'else if'
                     head = f'{_kw(r, ei)} ({r_cond(br["c"], rc)}) {_kw(r, "then")}'
-                _emit(rc, ind, head, br.get('tc'))
+                _emit(rc, ind, head, br.get('tc'), block_head=True)
                 r_stmts(br['b'], r, rc, ind + 2)
             if s['else'] is not None:
                 _emit(rc, ind, _kw(r, 'else'))
@@ -542,7 +545,7 @@ def r_stmts(body, r, rc, ind):
                     c = f'{c} .and. &\x00{com}\x01{"& " if s["brk"] == 3 else ""}{ex}'
                 else:
                     c = f'{c} .and. {ex}'
-            _emit(rc, ind, f'{_kw(r, "do while")} ({c})')
+            _emit(rc, ind, f'{_kw(r, "do while")} ({c})', block_head=True)
             r_stmts(s['b'], r, rc, ind + 2)
             _emit(rc, ind + 2, 'k = k + 1')
             _emit(rc, ind, _kw(r, 'end do'))
@@ -685,8 +688,13 @@ def r_routine(r, rc, ind, extra_args=0):
         r_ubound_checks(r, rc, b)
     r_stmts(body[half:], r, rc, b)
     # epilogue: fold everything observable into ires
-    _emit(rc, b, 'if (lg) t = t + 1')
-    _emit(rc, b, "if (s(1:1) == 'i') u = u + 1")
+    if r.get('block_epilogue'):
+        # (variant without one-line IF statements)
+        for ln in ('if (lg) then', '  t = t + 1', 'end if', "if (s(1:1) == 'i') then", '  u = u + 1', 'end if'):
+            _emit(rc, b, ln)
+    else:
+        _emit(rc, b, 'if (lg) t = t + 1')
+        _emit(rc, b, "if (s(1:1) == 'i') u = u + 1")
     _emit(rc, b, 'ires = mod(t + 3*u + 7*k, 100003)')
     if r.get('member'):
         _emit(rc, ind, _kw(r, 'contains'))
